@@ -661,6 +661,35 @@ pub fn run_paths<C: KeyColl>(tr: &mut Trace, paths: &[(usize, Vec<KOp>)], keys: 
         }
         // 2. every call of the alphabet from the state reached
         fan_out::<C>(&mut s, &Start::Path(path, *cap), tmax, with_export);
+        // 3. nothing a look-up leaves behind may survive expiry, a clear and the restart of the clock: look a
+        // key up, let everything expire (queries at every later time), clear, look it up again at early times
+        let start = Start::Path(path, *cap);
+        reload::<C>(&mut s, &start);
+        let stored: Vec<i32> = {
+            let mut v: Vec<i32> = s.mine.iter().map(|x| x.0).collect();
+            v.sort();
+            v.dedup();
+            v
+        };
+        let now0 = s.now.max(0);
+        for (i, k) in stored.iter().enumerate() {
+            if i > 0 {
+                reload::<C>(&mut s, &start);
+            }
+            s.apply(&KOp::Get { t: now0, k: *k }, 0);
+            s.apply(&KOp::Le { t: now0, p: *k }, 0);
+            for t in now0 + 1..=tmax + 2 {
+                s.apply(&KOp::Le { t, p: keys + 1 }, 0);
+            }
+            s.apply(&KOp::Clear, 0);
+            for t in 0..=1 {
+                s.apply(&KOp::Get { t, k: *k }, 0);
+                s.apply(&KOp::Le { t, p: keys + 1 }, 0);
+                s.apply(&KOp::Lt { t, p: keys + 1 }, 0);
+            }
+            s.apply(&KOp::Ins { k: *k, e: 3, v: k * 1000 + 37, t: 1 }, 0);
+            s.apply(&KOp::Get { t: 1, k: *k }, 0);
+        }
     }
 }
 
